@@ -343,6 +343,204 @@ pub fn c13_replay(sub: &str, case: serde_json::Value) -> Result<Option<Violation
     hist_replay(&C13, case)
 }
 
+
+// ------------------------------------------------------------------------------------------ C14: lifecycle source with a timer
+// The iterator handed to before_handle_events must yield exactly the real events the source is then asked to process in
+// that dispatch - also the expiries of a Timer sub-source, which do not come from the poller but from the loop's timer
+// wheel, and also when a hook takes long enough for a deadline to pass meanwhile. Small timing family over a custom
+// lifecycle source {PingSource, Timer}; the comparison is exact whatever the timing turns out to be.
+
+#[derive(serde::Serialize, serde::Deserialize, Debug, Clone, Hash, PartialEq, Eq)]
+pub struct LtCase {
+    /// the timer child is due this long after the source is inserted
+    pub timer_us: u16,
+    /// before_handle_events takes this long
+    pub hook_us: u16,
+    /// the ping child is pinged before the first dispatch
+    pub pinged: bool,
+    /// how often the timer child re-arms itself (ToDuration(timer_us)) before it stops
+    pub repeats: u8,
+    /// 2..=5 dispatches with this timeout in 100 us steps (0 = non-blocking)
+    pub dispatches: u8,
+    pub timeout_100us: u8,
+    /// a second lifecycle source (ping only) whose hook is the slow one instead
+    pub other_is_slow: bool,
+}
+
+fn lt_strategy() -> impl Strategy<Value = LtCase> {
+    (0u16..4000, prop_oneof![1 => Just(0u16), 3 => 100u16..3000], any::<bool>(), 0u8..3, 2u8..=5, prop_oneof![2 => Just(0u8), 1 => 1u8..20], any::<bool>())
+        .prop_map(|(timer_us, hook_us, pinged, repeats, dispatches, timeout_100us, other_is_slow)| LtCase { timer_us, hook_us, pinged, repeats, dispatches, timeout_100us, other_is_slow })
+}
+
+#[derive(Default)]
+struct LtLog {
+    bs: u32,
+    bh: u32,
+    shown: Vec<usize>,
+    processed: Vec<usize>,
+}
+
+struct LtSource {
+    ping: calloop::ping::PingSource,
+    timer: Option<calloop::timer::Timer>,
+    repeats: u8,
+    period: std::time::Duration,
+    hook: std::time::Duration,
+    log: std::rc::Rc<std::cell::RefCell<LtLog>>,
+}
+
+impl calloop::EventSource for LtSource {
+    type Event = ();
+    type Metadata = ();
+    type Ret = ();
+    type Error = Box<dyn std::error::Error + Sync + Send>;
+    const NEEDS_EXTRA_LIFECYCLE_EVENTS: bool = true;
+    fn process_events<F>(&mut self, r: calloop::Readiness, t: calloop::Token, mut cb: F) -> Result<calloop::PostAction, Self::Error>
+    where
+        F: FnMut((), &mut ()),
+    {
+        self.log.borrow_mut().processed.push(t.verif_key());
+        self.ping.process_events(r, t, |_, _| cb((), &mut ()))?;
+        if let Some(timer) = self.timer.as_mut() {
+            let (repeats, period) = (&mut self.repeats, self.period);
+            timer.process_events(r, t, |_, _| {
+                cb((), &mut ());
+                if *repeats > 0 {
+                    *repeats -= 1;
+                    calloop::timer::TimeoutAction::ToDuration(period)
+                } else {
+                    // keep the child (and its sub-token) around, unarmed
+                    calloop::timer::TimeoutAction::ToDuration(std::time::Duration::MAX)
+                }
+            })?;
+        }
+        Ok(calloop::PostAction::Continue)
+    }
+    fn register(&mut self, p: &mut calloop::Poll, f: &mut calloop::TokenFactory) -> calloop::Result<()> {
+        self.ping.register(p, f)?;
+        if let Some(t) = self.timer.as_mut() {
+            t.register(p, f)?;
+        }
+        Ok(())
+    }
+    fn reregister(&mut self, p: &mut calloop::Poll, f: &mut calloop::TokenFactory) -> calloop::Result<()> {
+        self.ping.reregister(p, f)?;
+        if let Some(t) = self.timer.as_mut() {
+            t.reregister(p, f)?;
+        }
+        Ok(())
+    }
+    fn unregister(&mut self, p: &mut calloop::Poll) -> calloop::Result<()> {
+        self.ping.unregister(p)?;
+        if let Some(t) = self.timer.as_mut() {
+            t.unregister(p)?;
+        }
+        Ok(())
+    }
+    fn before_sleep(&mut self) -> calloop::Result<Option<(calloop::Readiness, calloop::Token)>> {
+        self.log.borrow_mut().bs += 1;
+        Ok(None)
+    }
+    fn before_handle_events(&mut self, events: calloop::EventIterator<'_>) {
+        {
+            let mut l = self.log.borrow_mut();
+            l.bh += 1;
+            l.shown.extend(events.map(|(_, t)| t.verif_key()));
+        }
+        if !self.hook.is_zero() {
+            std::thread::sleep(self.hook);
+        }
+    }
+}
+
+pub fn run_lifecycle_timer(c: &LtCase) -> CaseOutcome {
+    use calloop::EventLoop;
+    use std::time::Duration;
+    crate::driver::HEARTBEAT.fetch_add(1, std::sync::atomic::Ordering::Relaxed);
+    let mut info = CaseInfo::default();
+    info.fingerprint = crate::evidence::fingerprint(c);
+    let mut el: EventLoop<'static, u32> = EventLoop::try_new().expect("event loop");
+    let h = el.handle();
+    let hook = Duration::from_micros(c.hook_us as u64);
+    let log = std::rc::Rc::new(std::cell::RefCell::new(LtLog::default()));
+    let (ping, psrc) = calloop::ping::make_ping().expect("make_ping");
+    let (ping2, psrc2) = calloop::ping::make_ping().expect("make_ping");
+    let log2 = std::rc::Rc::new(std::cell::RefCell::new(LtLog::default()));
+    // the other lifecycle source goes in first: its hooks run first
+    h.insert_source(LtSource { ping: psrc2, timer: None, repeats: 0, period: Duration::ZERO, hook: if c.other_is_slow { hook } else { Duration::ZERO }, log: log2.clone() }, |_, _, n: &mut u32| *n += 1)
+        .expect("insert other lifecycle source");
+    let period = Duration::from_micros(c.timer_us as u64);
+    h.insert_source(
+        LtSource { ping: psrc, timer: Some(calloop::timer::Timer::from_duration(period)), repeats: c.repeats, period, hook: if c.other_is_slow { Duration::ZERO } else { hook }, log: log.clone() },
+        |_, _, n: &mut u32| *n += 1,
+    )
+    .expect("insert lifecycle source with a timer");
+    if c.pinged {
+        ping.ping();
+    }
+    let mut viol = None;
+    let mut hit = false;
+    let mut n = 0u32;
+    for d in 0..c.dispatches.clamp(2, 5) {
+        for l in [&log, &log2] {
+            *l.borrow_mut() = LtLog::default();
+        }
+        let r = el.dispatch(Some(Duration::from_micros(c.timeout_100us as u64 * 100)), &mut n);
+        if let Err(e) = r {
+            viol = Some(Violation::new("C14.iter", format!("dispatch #{d} failed: {e}")));
+            break;
+        }
+        for (which, l) in [("timer", &log), ("other", &log2)] {
+            let l = l.borrow();
+            if l.bs != 1 || l.bh != 1 {
+                viol = Some(Violation::new("C14.sleep_once", format!("dispatch #{d}: the {which} lifecycle source got {} before_sleep and {} before_handle_events calls", l.bs, l.bh)).with_sig("C14.sleep_once/lifecycle-timer"));
+                break;
+            }
+            let (mut a, mut b) = (l.shown.clone(), l.processed.clone());
+            a.sort_unstable();
+            b.sort_unstable();
+            if a != b {
+                viol = Some(
+                    Violation::new(
+                        "C14.iter",
+                        format!("dispatch #{d}: the iterator given to before_handle_events of the {which} lifecycle source yielded the events {a:x?}, the source was then asked to process {b:x?} (hook {} us, timer {} us)", c.hook_us, c.timer_us),
+                    )
+                    .with_sig("C14.iter/lifecycle-timer"),
+                );
+                break;
+            }
+            if which == "timer" && b.len() > (c.pinged && d == 0) as usize {
+                hit = true;
+            }
+        }
+        if viol.is_some() {
+            break;
+        }
+    }
+    drop((ping, ping2));
+    info.nontrivial = hit && c.hook_us > 0;
+    info.classes.push(if hit { "lifecycle_timer_expiry_processed" } else { "lifecycle_timer_never_due" });
+    if c.hook_us as u32 >= c.timer_us as u32 && c.hook_us > 0 {
+        info.classes.push("lifecycle_hook_outlasts_the_timer");
+    }
+    (info, viol)
+}
+
+fn c14_lifecycle_timer(ctx: &CheckCtx, _hp: &'static HistProp) -> Option<Found> {
+    if let Some(f) = ctx.run_replays::<LtCase, _>("lifecycle_timer", run_lifecycle_timer) {
+        return Some(f);
+    }
+    ctx.search("lifecycle_timer", lt_strategy(), ctx.tier.pick(3_000, 80_000), 8, None, run_lifecycle_timer)
+}
+
+pub fn c14_replay(sub: &str, case: serde_json::Value) -> Result<Option<Violation>, String> {
+    if sub == "lifecycle_timer" {
+        let c: LtCase = serde_json::from_value(case).map_err(|e| e.to_string())?;
+        return Ok(run_lifecycle_timer(&c).1);
+    }
+    hist_replay(&C14, case)
+}
+
 // ------------------------------------------------------------------------------------------ C01
 
 pub static C01_META: PropMeta = PropMeta {
@@ -888,7 +1086,7 @@ pub static C14: HistProp = HistProp {
     epoll_each_step: false,
     workers: 8,
     table: None,
-    extra: None,
+    extra: Some(c14_lifecycle_timer),
 };
 
 // ------------------------------------------------------------------------------------------ C15
